@@ -50,7 +50,7 @@ var solverSem = make(chan struct{}, 16)
 func RunScript(name string, sc *Script, timeoutS int, all bool) (best SolverResult, allRes []SolverResult) {
 	os.MkdirAll(workDir, 0o755)
 	h := sha256.Sum256([]byte(sc.Text))
-	base := filepath.Join(workDir, sanitize(name)+"-"+hex.EncodeToString(h[:6]))
+	base := filepath.Join(workDir, fmt.Sprintf("%s-%s-%d", sanitize(name), hex.EncodeToString(h[:6]), os.Getpid()))
 	ctx, cancel := context.WithCancel(context.Background())
 	defer cancel()
 	ch := make(chan SolverResult, len(solvers))
